@@ -43,6 +43,7 @@ class RefSdoServer:
         self.block_upload_support = block_upload_support
         self.refuse = refuse                    # callable(kind, mux, data|None) -> abort code | None
         self.violations = []                    # (mechanism, message)
+        self.observations = []                  # things worth reporting that no property forbids
         self.commits = []                       # (mux, bytes) in commit order
         self.aborts_received = []               # (mux, code)
         self.frames_seen = 0
@@ -303,7 +304,9 @@ class RefSdoServer:
                 self._v("client-block-crc", f"end frame CRC {crc:#06x}, payload CRC {want:#06x} ({len(payload)} bytes)")
                 return self._abort(ABORT_CRC)
         elif crc:
-            self._v("client-crc-not-negotiated-nonzero", f"CRC field {crc:#06x} although CRC was not negotiated")
+            # CiA 301 reserves the field when CRC was not negotiated by both sides; a server ignores it.
+            # C12 only demands a correct CRC *when negotiated*, so this is an observation, not a finding.
+            self.observations.append(("client-crc-not-negotiated-nonzero", f"CRC field {crc:#06x} although CRC was not negotiated"))
         code = self.refuse("download", self.mux, payload) if self.refuse else None
         if code is not None:
             return self._abort(code)
